@@ -67,7 +67,7 @@ class FuncC:
         self.at_yield_havoc = []
         self.at_yield_assume = []
         self.note = kw.get("note", "")
-        self.reads_lazily = kw.get("reads_lazily", [])   # heap fields a returned lazy iterator keeps reading
+        self.reads_lazily = list(kw.get("reads_lazily", []))   # heap fields a returned lazy iterator keeps reading
         self.locals_sorts = dict(kw.get("locals", {}))   # declared sorts of locals that cannot be inferred
         self.self_sort = kw.get("self_sort", None)
 
@@ -86,6 +86,11 @@ class FuncC:
 
     def modifies(self, *locs):
         self.modifies_l.extend(locs)
+        return self
+
+    def reads(self, *fields):
+        """heap fields ("Class.field") that the generator / returned iterator reads lazily, i.e. after it was handed out"""
+        self.reads_lazily.extend(fields)
         return self
 
     def loop(self, k):
